@@ -153,6 +153,13 @@ func main() {
 				delete(extra, "__extra_results")
 			}
 		}
+		if os.Getenv("GMARSLINT_VERBOSE") != "" {
+			for _, res := range results {
+				for _, o := range res.Obs {
+					fmt.Printf("%-10s %s  %s — %s\n", o.Verdict, o.Pos, o.Key, o.Reason)
+				}
+			}
+		}
 		code = report(w, p, results, known, *tier, seed, *evDir, start, extra)
 	}()
 	os.Exit(code)
